@@ -5,6 +5,7 @@ package main
 // writes evidence and replay files.
 
 import (
+	"runtime/debug"
 	"go/types"
 	"regexp"
 	"golang.org/x/tools/go/ssa"
@@ -311,7 +312,19 @@ func runCheck(prop, tier string, rebaseline bool) int {
 			run.Sigs = map[string]string{}
 		}
 		run.Sigs[name] = sigKey(fn)
-		e.verifyFunction(fn, sp)
+		func() {
+			// a construct that makes the executor itself fail is outside the verified subset, like any other
+			// unsupported construct: a failed obligation of this function, the other functions are still decided
+			defer func() {
+				if r := recover(); r != nil {
+					e.obls = nil
+					e.errs = nil
+					run.Results = append(run.Results, &ObResult{Name: name + "/outside-verified-subset", Backend: "govc", OK: false, Status: "engine-failure", N: 1, Top: name,
+						Note: fmt.Sprintf("the executor failed on this function: %v", r), Detail: firstLines(string(debug.Stack()), 30)})
+				}
+			}()
+			e.verifyFunction(fn, sp)
+		}()
 		if e.misfit {
 			run.Notes = append(run.Notes, e.notes...)
 			if run.Gone == nil {
@@ -549,7 +562,15 @@ func boundedFallback(run *CheckRun, ld *Loaded, specs *SpecDB, prop, tier string
 			e = newExec(ld, specs)
 			e.bounded = K
 			e.forceInline = inlined
-			e.verifyFunction(ld.funcs[f], sp)
+			func() {
+				defer func() {
+					if r := recover(); r != nil {
+						e.obls = nil
+						e.errs = []string{fmt.Sprintf("the executor failed: %v", r)}
+					}
+				}()
+				e.verifyFunction(ld.funcs[f], sp)
+			}()
 			if len(e.errs) > 0 {
 				break
 			}
